@@ -14,4 +14,4 @@ for id in "$@"; do
   echo "== $label $id rc=$rc $(grep -c '^VIOLATION' $out/$id.log) violation line(s)"
   grep -E "^  violation|^HARNESS" $out/$id.log | cut -c1-300 | head -4
 done
-git -C /repo worktree remove --force $wt
+[ -n "$KEEP" ] || git -C /repo worktree remove --force $wt
